@@ -28,6 +28,30 @@ CHECKS = {
  "C08": dict(tech="inequality oracle u8score >= scale(real score) on every position and arm, matrices built to saturate",
    text="Runtime monitoring: matrices whose rounded-up cells sum above 255, sequences with planted consensus / anti-consensus / wildcards; every position's byte score on every arm is compared with the matrix's own byte image of the real score and of lower thresholds.",
    note="one open known finding (generic u8 kernel wraps); NEON not covered (reading shows the same wrapping add there)", ref="DESIGN.md section 3 C08"),
+ "C09": dict(tech="f64 reference model of the conversion definitions over generated count data / pseudocounts / backgrounds / bases; single-condition invalid inputs for the rejection clauses",
+   text="Runtime monitoring: generated count data (sequence sets and raw matrices), scalar / per-symbol pseudocounts, uniform / dyadic / zero-entry / counted backgrounds and four logarithm bases go through every conversion route; an f64 model judges counts, frequencies, weights, scores, route agreement, min/max bracketing of windows and the rejection of inputs that violate exactly one validity condition.",
+   note="relative tolerance 1e-5; inputs within float noise of the acceptance boundaries are not generated", ref="DESIGN.md section 3 C09"),
+ "C10": dict(tech="algebraic-law monitor (involution, definition, commutation with conversions, mirrored scores against the f64 scoring model)",
+   text="Runtime monitoring: for generated DNA matrices of widths 1..40 (incl. wildcard counts, finite wildcard columns, -inf cells) the four matrix types are reverse-complemented and checked cell-exactly for involution and definition, for commutation with the conversions under strand-symmetric backgrounds, and for mirrored scores on reverse-complemented sequences.",
+   note="DNA only (the only complementable alphabet)", ref="DESIGN.md section 3 C10"),
+ "C11": dict(tech="exact-enumeration oracle (all K^M words, f64 tail) for the p-value bounds; structural monitors for wider matrices",
+   text="Runtime monitoring against an exact oracle: for DNA widths <= 8 and protein widths <= 3 the exact score distribution is enumerated and every p-value must lie between the exact tails at s+-d; monotonicity, range and round-trip laws are checked for widths up to 30.",
+   note="exact bounds only where K^M is enumerable; zero wildcard background frequency", ref="DESIGN.md section 3 C11"),
+ "C12": dict(tech="exact-enumeration oracle over every recorded Iteration of approximate_pvalue (trace checker)",
+   text="Runtime monitoring of the refinement trace: every Iteration (range, granularity, converged) of approximate_pvalue down to 1e-8 is checked against the exact enumerated tails; pvalue() must equal the converged lower bound.",
+   note="widths 2..6 (thorough 2..8), protein 2..3; probabilities compared up to the f64 noise of non-normalised f32 backgrounds", ref="DESIGN.md section 3 C12"),
+ "C13": dict(tech="exact-enumeration oracle over every recorded Iteration of approximate_score (trace checker); known-finding signature evaluated against a frozen copy of the reference algorithm",
+   text="Runtime monitoring of the refinement trace: every Iteration of approximate_score is checked on both sides against the exact enumerated tails; score() must equal the converged threshold.",
+   note="one open known finding (window limitation inherent to the reference algorithm); same ranges as C12", ref="DESIGN.md section 3 C13"),
+ "C14": dict(tech="generator-model monitor: generated files + bundled corpora read under 9 stream schedules (monitor-owned chunking Read with injected Interrupted), compared record by record",
+   text="Runtime monitoring under hostile stream schedules: generated files of all four formats (1..600 records, shuffled / partial symbol columns, optional metadata) and the bundled corpora are read through capacity-1 buffers, 1-byte reads, random short reads and injected interrupts; every record is compared with the generator's model / an independent line parser.",
+   note="canonical syntax only (no blank lines between JASPAR records, no '>' inside descriptions); TRANSFAC counts < 2^24", ref="DESIGN.md section 3 C14"),
+ "C15": dict(tech="fault-injection monitor: every prefix and single-byte edit of valid files, structural damage, random bytes; panics caught, termination decided on logical steps",
+   text="Runtime monitoring with systematic fault injection: every prefix and single-byte substitution / deletion / insertion of valid files of each format plus structural damage and random bytes are fed to all four readers under catch_unwind and chunked delivery; panics, runaway record streams and end-of-input livelocks are violations.",
+   note="a CPU-only infinite loop would only trip the watchdog (inconclusive)", ref="DESIGN.md section 3 C15"),
+ "C16": dict(tech="online trace checker recomputing the sampler state from the dataset after every step; twin-run determinism check; per forced dispatcher arm",
+   text="Runtime monitoring of sampling traces: after construction and after every step the count matrix, background, starts and the iteration's hold-out counts are recomputed from the linear sequences; twin runs must be identical.",
+   note="seeds >= 2 in zero-or-one mode and >= 2 sequences (fewer divide by an empty background by construction)", ref="DESIGN.md section 3 C16"),
  "C19": dict(tech="model-based monitor (Vec<Vec<T>> model) of random operation histories, alignment and stride invariants asserted after every op",
    text="Runtime monitoring: random operation histories on DenseMatrix<T,C> for 4 element types x 7 column counts against a Vec<Vec<T>> model; contents, iteration order, equality semantics, row alignment and stride checked after every operation.",
    note="x86_64 alignment (32 bytes) only", ref="DESIGN.md section 3 C19"),
